@@ -127,10 +127,14 @@ Definition tt_rest_ok (rest : str) : Prop :=
 Ltac norm_app := repeat (rewrite <- app_assoc || rewrite <- app_comm_cons || rewrite app_nil_r || rewrite app_nil_l).
 
 (* ---- THE TOKEN ------------------------------------------------------------ *)
-Theorem timetag_token_whole_seconds (dec2f : list Z -> Z) o secs rest : 0 <= secs < 2 ^ 32 -> tt_rest_ok rest ->
+(* the clock clause of tt_rest_ok is needed only behind a date that stands alone
+   (midnight) *)
+Theorem timetag_token_whole_seconds_gen (dec2f : list Z -> Z) o secs rest : 0 <= secs < 2 ^ 32 ->
+  (secs mod 86400 = 0 -> run_fmt [DWs; Ddw 2; DLit 58; Ddw 2] rest [] = None) ->
+  hd0 rest <> 58 -> hd0 rest <> 46 ->
   scan_date dec2f (print_timetag o (secs * 2 ^ 32) ++ rest) = Ok ([VTm (secs * 2 ^ 32)], rest).
 Proof.
-  intros Hs (Hclock & H58 & H46).
+  intros Hs Hclock0 H58 H46.
   assert (Hdot : (hd0 rest =? 46) = false) by (now apply Z.eqb_neq).
   unfold print_timetag.
   replace (secs * 2 ^ 32 =? 1) with false by (symmetry; apply Z.eqb_neq; lia).
@@ -153,6 +157,9 @@ Proof.
     + (* the date alone *)
       apply orb_false_iff in Ehm. destruct Ehm as (Eh & Emi).
       apply negb_false_iff in Eh, Emi. apply Z.eqb_eq in Eh, Emi.
+      assert (Hclock : run_fmt [DWs; Ddw 2; DLit 58; Ddw 2] rest [] = None).
+      { apply Hclock0. rewrite <- Esecs. unfold secs_of_date. subst h mi se.
+        rewrite !Z.mul_0_l, !Z.add_0_r. apply Z.mod_mul. lia. }
       unfold scan_date. norm_app.
       rewrite run_date_head by lia. cbv beta iota.
       rewrite Hclock. cbv beta iota.
@@ -165,6 +172,10 @@ Proof.
     rewrite run_seconds by lia. cbv beta iota. rewrite Hdot. cbv beta iota.
     rewrite Eval_ by reflexivity. reflexivity.
 Qed.
+
+Theorem timetag_token_whole_seconds (dec2f : list Z -> Z) o secs rest : 0 <= secs < 2 ^ 32 -> tt_rest_ok rest ->
+  scan_date dec2f (print_timetag o (secs * 2 ^ 32) ++ rest) = Ok ([VTm (secs * 2 ^ 32)], rest).
+Proof. intros Hs (Hclock & H58 & H46). now apply timetag_token_whole_seconds_gen. Qed.
 
 (* the premise on what follows is met by the end of the text, by a following
    value and by the closing bracket of an array *)
